@@ -29,7 +29,7 @@ ASSUMPTIONS = ["analytic grid/forcing plug-ins; NETCDF4 data model only"]
 S0 = world.tosec("2020-05-10T06:00:00")
 DT = 60
 REL = [0, 1, 2]
-DEATH = ["none", "low", "high", "all"]
+DEATH = ["none", "low", "high", "all"]  # ("mid", a death out of release order that leaves ONE gap inside the living identifiers, appears in the chosen scenarios only)
 PVARS = ["none", "float", "time"]
 REFS = ["default", "earlier", "later"]
 FAR = "1900-01-01T00:00:00"  # more than 2**31 seconds before the run: the time coordinate needs the full range and resolution of a double
@@ -62,6 +62,10 @@ def cases(tier, seed):
         out.append(dict(hist=[[crowd, death], [0, "high"], [1, "none"], [0, "low"]], layout=layout, period=1, pvars="float", ref="default", numrec=2))
     for layout, pv, rev in itertools.product(b["layouts"], ["time", "none"], [False, True]):
         out.append(dict(hist=[[2, "low"], [1, "none"], [0, "high"]], layout=layout, period=2, pvars=pv, ref="far", numrec=0, rev=rev))
+    # deaths out of release order: exactly one gap, two gaps, a gap next to the end of the living identifiers
+    for layout, hist in itertools.product(b["layouts"], ([[2, "none"], [2, "mid"], [1, "none"]], [[2, "none"], [2, "mid"], [0, "mid"], [1, "none"]], [[2, "mid"], [2, "low"], [1, "mid"]], [[1, "none"], [2, "mid"], [2, "high"], [0, "mid"]])):
+        for pv, numrec in (("float", 0), ("none", 2)):
+            out.append(dict(hist=hist, layout=layout, period=1, pvars=pv, ref="default", numrec=numrec, packed=(numrec == 2)))
     # two set-ups run one after the other in one process from the SAME variable-definition dictionaries (a script looping over experiments),
     # the second with another reference time: nothing of the first run may stick to the tables
     for layout, pv, numrec in itertools.product(b["layouts"], ["time", "float"], b["numrec"]):
@@ -92,7 +96,7 @@ def plan(case):
         released_at_rec.append(npid)
         dead = []
         if living:
-            dead = dict(none=[], low=[living[0]], high=[living[-1]], all=list(living))[death]
+            dead = dict(none=[], low=[living[0]], high=[living[-1]], all=list(living), mid=[living[len(living) // 2]] if len(living) >= 3 else [])[death]
         if dead:
             kills[s] = dead
             living = [p for p in living if p not in dead]
